@@ -1365,8 +1365,8 @@ pub fn run(ctx: &Ctx) -> i32 {
             }
         }
     }
-    let seq_deadline = ctx.start + Duration::from_secs_f64(ctx.tier.pick(36.0, 500.0));
-    let gate_deadline = ctx.start + Duration::from_secs_f64(ctx.tier.pick(36.0, 540.0));
+    let seq_deadline = ctx.start + Duration::from_secs_f64(ctx.tier.pick(90.0, 900.0));
+    let gate_deadline = ctx.start + Duration::from_secs_f64(ctx.tier.pick(90.0, 900.0));
     let mut report = Report::new();
     let sink = Sink::new(6);
 
